@@ -126,7 +126,7 @@ func TestC18(t *testing.T) {
 		}
 		ns := genBindings(t)
 		elems, attrs, targets := docNames(p.doc)
-		g := &xast.G{T: t, Env: xast.GenEnv{ElemNames: queryable(elems), AttrNames: queryable(attrs), PITargets: targets, Prefixes: prefixesOf(ns), NoAbs: true}}
+		g := &xast.G{T: t, Env: xast.GenEnv{ElemNames: queryable(elems), AttrNames: queryable(attrs), PITargets: targets, Prefixes: prefixesOf(ns), NoAbs: true, NumVars: []string{"k1", "k2"}}}
 		P := g.RelPath(1, 3)
 		P.Abs = true
 		P.Steps[0].DS = rapid.Bool().Draw(t, "pDS")
@@ -153,7 +153,9 @@ func checkC18Compose(c *c18Case) error {
 	for k, v := range c.NS {
 		set = append(set, xsel.WithNS(k, v))
 	}
-	env := &xref.Env{Doc: p.doc, NS: c.NS}
+	// $k1 = 1 and $k2 = 2 are bound in every query of the case (numeric predicates that show no digit)
+	env := &xref.Env{Doc: p.doc, NS: c.NS, Vars: map[xref.Name]xref.Value{{Local: "k1"}: xref.Number(1), {Local: "k2"}: xref.Number(2)}}
+	set = append(set, xsel.WithVariable("k1", xsel.Number(1)), xsel.WithVariable("k2", xsel.Number(2)))
 	render := xast.RenderMinimal
 	if c.Abbrev {
 		render = func(x *xast.Expr) string { return xast.Render(x, xast.Abbrev, xast.Style{Abbrev: true}) }
